@@ -263,22 +263,24 @@ func init() {
 			nsym := 0
 			fresh := func() int { nsym++; return nsym }
 			steps := 8 + r.Intn(18)
-			// phase 1: grow a chain so that some token carries 1..6 symbols
-			grow := r.Intn(7)
-			if grow > 0 {
-				hist = append(hist, HeapOp{Op: "create", T: 1})
-				bbs = append(bbs, bbS{tok: 1, live: true})
-				for k := 0; k < grow && nsym < 8; k++ {
-					hist = append(hist, HeapOp{Op: "add", B: 1, S: fresh()})
-					bbs[0].adds++
+			// phase 1: grow a chain of 0..6 blocks (0..3 symbols each) so that the newest token carries a table and a block
+			// list of varying length -- every spare-capacity situation of the allocator occurs for some seed
+			depth := r.Intn(7)
+			for d := 0; d < depth; d++ {
+				hist = append(hist, HeapOp{Op: "create", T: len(toks)})
+				bbs = append(bbs, bbS{tok: len(toks), live: true})
+				b := len(bbs)
+				for k, n := 0, r.Intn(4); k < n && nsym < 9; k++ {
+					hist = append(hist, HeapOp{Op: "add", B: b, S: fresh()})
+					bbs[b-1].adds++
 				}
-				hist = append(hist, HeapOp{Op: "build", B: 1})
-				bbs[0].live = false
-				blks = append(blks, 1)
-				hist = append(hist, HeapOp{Op: "append", K: 1})
+				hist = append(hist, HeapOp{Op: "build", B: b})
+				bbs[b-1].live = false
+				blks = append(blks, bbs[b-1].tok)
+				hist = append(hist, HeapOp{Op: "append", K: len(blks)})
 				toks = append(toks, tk{})
 			}
-			for s := 0; s < steps && len(toks) < 12; s++ {
+			for s := 0; s < steps && len(toks) < 16; s++ {
 				live := []int{}
 				for b, x := range bbs {
 					if x.live {
@@ -345,7 +347,7 @@ func init() {
 				}
 			}
 			for k := range blks {
-				if len(toks) < 20 && !toks[blks[k]-1].sealed && r.Intn(3) != 0 {
+				if len(toks) < 24 && !toks[blks[k]-1].sealed && r.Intn(3) != 0 {
 					hist = append(hist, HeapOp{Op: "append", K: k + 1})
 					toks = append(toks, tk{})
 				}
